@@ -108,6 +108,16 @@ def run_mirq(features='all', repo=None, th=None):
             sysroot = subprocess.run(['rustc', '+nightly', '--print', 'sysroot'], capture_output=True, text=True, cwd=VERIF).stdout.strip()
             tdir = tempfile.mkdtemp(prefix='mirq-target-')
             odir = tempfile.mkdtemp(prefix='mirq-out-')
+            # The third-party dependencies do not change from tree to tree: their compiled metadata is kept as a seed
+            # (members' fingerprints removed, so cargo always recompiles every workspace crate through the driver) and copied
+            # into the fresh target dir.  Without a seed (fresh restore) the run is cold and leaves one behind.
+            seed = os.path.join(CACHE, f'mirq-deps-{features}')
+            if os.path.isdir(seed):
+                shutil.rmtree(tdir, ignore_errors=True)
+                r0 = subprocess.run(['cp', '-a', seed, tdir])
+                if r0.returncode != 0:
+                    shutil.rmtree(tdir, ignore_errors=True)
+                    os.makedirs(tdir)
             try:
                 env = dict(os.environ)
                 env.update({
@@ -136,6 +146,17 @@ def run_mirq(features='all', repo=None, th=None):
                 with open(tmp, 'w') as fh:
                     json.dump({'features': features, 'crates': crates}, fh)
                 os.replace(tmp, out)
+                if not os.path.isdir(seed):
+                    try:
+                        stmp = seed + f'.tmp{os.getpid()}'
+                        shutil.rmtree(stmp, ignore_errors=True)
+                        subprocess.run(['cp', '-a', tdir, stmp], check=True)
+                        for pat in ('debug/.fingerprint/typeshare*', 'debug/incremental', 'debug/deps/*typeshare*', 'debug/deps/libtypeshare*', 'debug/build/typeshare*'):
+                            for x in glob.glob(os.path.join(stmp, pat)):
+                                shutil.rmtree(x, ignore_errors=True) if os.path.isdir(x) else os.remove(x)
+                        os.rename(stmp, seed)
+                    except Exception:
+                        shutil.rmtree(seed + f'.tmp{os.getpid()}', ignore_errors=True)
             finally:
                 shutil.rmtree(tdir, ignore_errors=True)
                 shutil.rmtree(odir, ignore_errors=True)
